@@ -98,6 +98,21 @@ def allinvalid_lines(sim):
     return out
 
 
+def kept_lines(sim):
+    """C08: no broker the client knew before a step is forgotten by it (`brokersKept`, proved of every event of the
+    model: C08_brokers_never_forgotten) - every pair of consecutive dumps"""
+    from harness.lib.client_sim import six
+    out = []
+    prev = None
+    for st in sim.steps:
+        if st["dump"] is None:
+            continue
+        if prev is not None and six(prev).split(" ")[0] != six(st["dump"]).split(" ")[0]:
+            out.append(("mon-kept %s %s" % (six(prev), six(st["dump"])), st["line"]))
+        prev = st["dump"]
+    return out
+
+
 def route_lines(sim):
     """C07's routing kernel against the code: for every send that resolved all of its keys from the cache (no
     metadata/coordinator load in its step) the requests the real client issued in that step - broker node and
@@ -151,7 +166,7 @@ def evaluate(ctx_model, scn, sim, focus, want_mon=("c07",)):
     tl = sim.trace_lines() + [MON[m] for m in want_mon]
     extra = []
     if "c08" in focus or focus == "all":
-        extra = mirror_lines(sim) + allinvalid_lines(sim)
+        extra = mirror_lines(sim) + allinvalid_lines(sim) + kept_lines(sim)
     routes = route_lines(sim) if focus in ("c07", "all") else []
     # the monitors on the MODEL's own trace of the same events (the soundness statements
     # Cxx_model_traces_satisfy_monitor, proved for C11, open for C07/C20, are evaluated on every scenario)
